@@ -38,7 +38,8 @@ REGISTRY: dict[str, dict[str, str]] = {
                      "propagation for the fence, isinstance-dominance of text stores, MRO-aware container table check",
         "level": "Decides that verbatim fields reach the output through content-preserving operations only, that delimited "
                  "contexts use content-dependent encoders, that the fence is strictly longer than any fence-like run of the "
-                 "emitted text, and that rewrites cannot reach non-prose nodes or template tags. Parser-side normalisation in "
+                 "emitted text, that the parser subclass ends a fenced block where marko does (closing test on the source line as read), "
+                 "and that rewrites cannot reach non-prose nodes or template tags. Parser-side normalisation in "
                  "marko is outside the repository.",
         "note": "Trusted: the operation table (lossy vs preserving string methods), marko class hierarchy as installed.",
         "design_ref": "DESIGN.md §3 R-ENCODE/R-BOUND/R-REWRITE, §4 C04",
@@ -85,7 +86,7 @@ REGISTRY: dict[str, dict[str, str]] = {
         "technique": "static analysis: sre parse-tree shape of pattern + callback (data-flow of emitted constants), "
                      "isinstance-dominance, sibling rule for template tags, non-interference",
         "level": "Decides that only the three dots and adjacent spaces of a match can change, that the rewrite reaches RawText "
-                 "only, sees coalesced text, protects template tags like its sibling, and that the option influences nothing "
+                 "only, sees text coalesced in every element that has inline children, protects template tags like its sibling, and that the option influences nothing "
                  "else. Idempotence of the rewrite is not decided.",
         "note": "Trusted: re.sub semantics.",
         "design_ref": "DESIGN.md §4 C09",
